@@ -540,10 +540,10 @@ def inbound_positions(R, C):
 
 def growth_scenarios(R, C, tier):
     """Named growth scenarios: each a list of writes outside the current bounds, applied in order
-    after the in-bounds writes. Column growth is quadratic in the implementation (add_column
+    after the in-bounds writes ("none": the table is saved at exactly the size it was created with). Column growth is quadratic in the implementation (add_column
     renumbers the whole table per call), so wide growth is used on tables of <= 3 rows only and
     column 999 on tables of <= 2 rows only."""
-    sc = [("plus1", [(R, 0), (0, C), (R + 1, C + 1)])]
+    sc = [("none", []), ("plus1", [(R, 0), (0, C), (R + 1, C + 1)])]
     if C <= 8:
         nxt = (R // 256 + 1) * 256  # first row of the next tile
         far = [(nxt, C - 1)] if nxt > R else [(nxt + 1, C - 1)]
@@ -563,6 +563,39 @@ def growth_scenarios(R, C, tier):
         if (R, C) == (1, 1):
             sc.append(("row-65536", [(65536, 0)]))
     return sc
+
+
+def exact_rows(H):
+    """Cells of a table of H = 256*k rows: first row, both sides of every tile boundary, both cells of the last row."""
+    rows = sorted({0, H - 2, H - 1} | {r for b in range(256, H, 256) for r in (b - 1, b)})
+    pos = [(r, r % 2) for r in rows if r != H - 1]
+    return pos + [(H - 1, 0), (H - 1, 1)]
+
+
+def exact_scenarios(tier):
+    """(name, initial shape, cycles) of the 'exact' family: the table has exactly H = 256*k rows (or exactly
+    256*k columns) when it is saved, because it was created so, grown to it by a write to its last row from
+    a table one row smaller or from a small table (across the tile boundaries), kept at it through a second
+    write/save cycle on the reopened document, grown to it in the second cycle, or shrunk to it."""
+    out = []
+    for H in ((256, 512, 768) if tier == "thorough" else (256, 512)):
+        pos = exact_rows(H)
+        last = [(H - 1, 1)]
+        rest = [p for p in pos if p not in last and p != (0, 0)]
+        out.append((f"rows{H}-created", (H, 2), [pos]))
+        out.append((f"rows{H}-grown-by-one", (H - 1, 2), [[(0, 0)] + last + rest]))
+        out.append((f"rows{H}-grown-from-4", (4, 2), [[(0, 0)] + last + rest]))
+        out.append((f"rows{H}-kept-in-second-cycle", (H, 2), [pos[: len(pos) // 2], pos[len(pos) // 2:] + [(0, 0)]]))
+        out.append((f"rows{H}-grown-in-second-cycle", (H - 1, 2), [[(0, 0), (H - 2, 0)], last + [p for p in rest if p != (H - 2, 0)]]))
+        out.append((f"rows{H}-shrunk-in-second-cycle", (H + 1, 2), [[p for p in pos if p[0] < H - 1], [("delete_last_rows", 1)] + [p for p in pos if p[0] == H - 1]]))
+    for W in ((256, 512) if tier == "thorough" else (256,)):
+        cpos = [(c % 2, c) for c in sorted({0, W - 2} | {x for b in range(256, W, 256) for x in (b - 1, b)})] + [(0, W - 1), (1, W - 1)]
+        clast = [(1, W - 1)]
+        crest = [p for p in cpos if p not in clast and p != (0, 0)]
+        out.append((f"cols{W}-grown-by-one", (2, W - 1), [[(0, 0)] + clast + crest]))
+        out.append((f"cols{W}-grown-from-2", (2, 2), [[(0, 0)] + clast + crest]))
+        out.append((f"cols{W}-kept-in-second-cycle", (2, W), [cpos[: len(cpos) // 2], cpos[len(cpos) // 2:]]))
+    return out
 
 
 def _stride(n):
@@ -595,6 +628,25 @@ def doc_plans(tier, seed):
                     writes.append([r, c, encv[name], name])
                     triples.add(("shape", R, C, sname if (r, c) in growth else "in-bounds", r, c, name))
                 plans.append({"family": "shape", "shape": [R, C], "headers": headers, "scenario": sname, "rotation": k, "cycles": [writes]})
+    # tables that have exactly 256*k rows (or 256 columns) at save time, reached in several ways
+    for scen, shape, cycles in exact_scenarios(tier):
+        npos = sum(1 for cyc in cycles for w in cyc if w[0] != "delete_last_rows")
+        assert npos <= nv
+        for k in range(nv):
+            out_cycles = []
+            i = 0
+            for cyc in cycles:
+                oc = []
+                for w in cyc:
+                    if w[0] == "delete_last_rows":
+                        oc.append(list(w))
+                        continue
+                    name = names[(k + i * stride) % nv]
+                    i += 1
+                    oc.append([w[0], w[1], encv[name], name])
+                    triples.add(("exact", scen, w[0], w[1], name))
+                out_cycles.append(oc)
+            plans.append({"family": "exact", "shape": list(shape), "headers": [0, 0], "scenario": scen, "rotation": k, "cycles": out_cycles})
     # every ordered pair of values in one 3x3 table with one header row and column
     pair_names = names if tier == "thorough" else PAIR_QUICK
     for a in pair_names:
@@ -638,6 +690,19 @@ def eval_doc(plan):
     path = Scratch.path(f"c01-{os.getpid()}.numbers")
     for ci, writes in enumerate(plan["cycles"]):
         for w in writes:
+            if w[0] == "delete_last_rows":
+                # not a value transition: brings the table to the wanted height; no written cell may be in those rows
+                n = w[1]
+                assert not any(r >= dims[0] - n for r, _ in ref), "plan deletes a written row"
+                try:
+                    t.delete_row(num_rows=n)
+                except Exception as e:  # noqa: BLE001
+                    out.append((ident("exception-delete-row", type(e).__name__), f"{tag}: delete_row({n}) on a {t.num_rows}-row table raised {type(e).__name__}: {e}"))
+                    return out
+                dims[0] -= n
+                if t.num_rows != dims[0]:
+                    out.append((ident("dims-live", "rows", "-", "shrink", "-"), f"{tag}: after delete_row({n}) the table has {t.num_rows} rows, expected {dims[0]}"))
+                continue
             r, c, v = w[0], w[1], dec(w[2])
             old = (t.num_rows, t.num_cols)
             where = ("growth-both" if c >= old[1] else "growth-rows") if r >= old[0] else ("growth-cols" if c >= old[1] else "in-bounds")
@@ -728,7 +793,7 @@ def work_docs(task):
     part = Part()
     for plan in plans:
         res = eval_doc(plan)
-        ncells = sum(len(c) for c in plan["cycles"])
+        ncells = sum(1 for c in plan["cycles"] for w in c if w[0] != "delete_last_rows")
         part.count("evaluations", ncells)
         part.count("document_cells_written_and_compared", ncells)
         part.count("documents_saved_and_reopened", len(plan["cycles"]))
@@ -738,6 +803,9 @@ def work_docs(task):
         dims = [R, C]
         for cyc in plan["cycles"]:
             for w in cyc:
+                if w[0] == "delete_last_rows":
+                    dims[0] -= w[1]
+                    continue
                 part.outcome("document:" + w[2][0], 1)
                 if w[0] >= dims[0] or w[1] >= dims[1]:
                     grow += 1
@@ -745,6 +813,10 @@ def work_docs(task):
                         part.count("growth_writes_across_a_tile_boundary", 1)
                 dims = [max(dims[0], w[0] + 1), max(dims[1], w[1] + 1)]
         part.count("growth_writes", grow)
+        if dims[0] % 256 == 0:
+            part.count("documents_saved_with_a_multiple_of_256_rows", 1)
+        if dims[1] % 256 == 0:
+            part.count("documents_saved_with_a_multiple_of_256_columns", 1)
         if dims[1] == 1000:
             part.count("documents_grown_to_column_999", 1)
         for ident, detail in res:
@@ -774,7 +846,8 @@ def plan_cost(plan):
     R, C = plan["shape"]
     for cyc in plan["cycles"]:
         for w in cyc:
-            R, C = max(R, w[0] + 1), max(C, w[1] + 1)
+            if w[0] != "delete_last_rows":
+                R, C = max(R, w[0] + 1), max(C, w[1] + 1)
     return 1 + (R * C) / 800 + (C > 256) * 2 + len(plan["cycles"])
 
 
@@ -838,8 +911,9 @@ def main():
     run.floor(">= 50,000 durations incl. both extremes", c["record_tdday"] + c["record_tdsec"] >= 50_000)
     run.floor("all six value types reach the record layer", sum(1 for k in run.outcomes if k.startswith("record:")) == 6)
     run.floor("all six value types written to documents", sum(1 for k in run.outcomes if k.startswith("document:")) >= 6)
-    run.floor(">= 1 growth write per document of the shape family and >= 100 growth writes across a tile boundary",
-              c["growth_writes"] >= c["documents_shape"] and c["growth_writes_across_a_tile_boundary"] >= 100)
+    run.floor(">= 1000 growth writes, >= 100 of them across a tile boundary", c["growth_writes"] >= 1000 and c["growth_writes_across_a_tile_boundary"] >= 100)
+    run.floor(">= 500 documents saved with exactly 256*k rows (created, grown, second cycle, shrunk) and >= 100 with exactly 256*k columns",
+              c["documents_saved_with_a_multiple_of_256_rows"] >= 500 and c["documents_saved_with_a_multiple_of_256_columns"] >= 100)
     run.floor("every (shape, scenario, position, value) triple of the plan was executed", c["document_cells_written_and_compared"] >= len(triples) > 1000)
     if tier == "thorough":
         run.floor("growth to column 999 executed", c["documents_grown_to_column_999"] >= len(alpha))
